@@ -13,7 +13,9 @@ Contract of a step (lib_transform.check_step), the property text made executable
   * token sequence (num, word, POS) unchanged; collapsing turns the POS below a unary chain into
     'X+..+POS', uncollapsing turns it back
   * constituents: add_topnode adds one TOP above the unchanged tree; boyd_split one node per token
-    block; raising removes exactly the non-head blocks; binarize adds only @-nodes; collapse /
+    block, exactly one of the blocks of a constituent being its head block; raising removes exactly
+    the non-head blocks, so that boyd_split + raising gives back one node per constituent of the
+    tree that was split; binarize adds only @-nodes; collapse /
     uncollapse merge / restore unary chains (reference on specs); every other transformation keeps
     the multiset of (node key, label)
 """
@@ -26,7 +28,10 @@ RULE = ("every prerequisite-respecting sequence of length <= L over the 15 param
         "(+ raising) (+ one more transformation) that are longer than L, applied to: all tree "
         "shapes with n<=N tokens in D decorations (plain; punctuation mix with unary wrappers "
         "and shuffled stored child order; punctuation-only sentence; unary chain at the root), "
-        "hand-made punctuation families, one-token sentences, seeded random trees to n=10.  "
+        "hand-made punctuation families, one-token sentences, seeded random trees to n=10; "
+        "the pipelines [root_attach]? + negra_mark_heads + boyd_split (+ raising) also on every "
+        "discontinuous shape with n<=H tokens x every head assignment (one HD child per "
+        "constituent, so that discontinuous head children occur in every position).  "
         "One evaluation = (sequence, tree), judged on the last step.  Non-trivial = distinct "
         "(sequence, tree) with at least two tokens")
 
@@ -37,6 +42,7 @@ def BOUNDS(ctx):
             "decorations_per_shape": 4,
             "L3_shapes_n": 0 if ctx.quick else 4, "L3_decorations": 0 if ctx.quick else 2,
             "random_trees": 40 if ctx.quick else 300, "random_max_n": 10,
+            "head_assignment_shapes_n": 5, "head_assignment_nested_only_n": 0 if ctx.quick else 6,
             "pipeline_extension": True}
 
 
@@ -48,8 +54,11 @@ def _judge(ctx, w):
     trees = ctx.mod("trees")
     seq = w["seq"]
     cur = tg.build(L.uidify(w["spec"]), trees)
+    pre = None
     for i, st in enumerate(seq):
         last = i == len(seq) - 1
+        # raising directly after boyd_split is also judged against the tree that was split
+        origin = pre if (st == "raising" and i > 0 and seq[i - 1] == "boyd_split") else None
         pre = L.real_spec(cur)
         if not L.dynamic_ok(st, seq[:i], pre):
             raise Skip()
@@ -62,7 +71,7 @@ def _judge(ctx, w):
             return ("%s returns the root of a well-formed tree" % st,
                     {"raised": "%s: %s" % (type(e).__name__, e), "wf_errors": L.describe_wreck(cur),
                      "emptied_had_children": L.emptied_info(kids_before, L.top_of(cur))})
-        bad = L.check_step(st, pre, res, kids_before)
+        bad = L.check_step(st, pre, res, kids_before, origin)
         if bad:
             if not last:
                 raise Skip()
@@ -133,6 +142,60 @@ def shape_specs(rng, max_n, decorations):
                                      root_chain=rng.choice([1, 2, 3]))
 
 
+def split_pipelines():
+    """[root_attach]? + negra_mark_heads + boyd_split (+ raising)"""
+    out = []
+    for ra in (False, True):
+        base = (["root_attach"] if ra else []) + ["negra_mark_heads", "boyd_split"]
+        out.append(base)
+        out.append(base + ["raising"])
+    return out
+
+
+def _nested_gaps(shape):
+    """some discontinuous node below the root has a discontinuous child whose token blocks lie in
+    different blocks of that node"""
+    if isinstance(shape, int):
+        return False
+    for node in shape:                      # the root covers 1..n: one block
+        if isinstance(node, int):
+            continue
+        runs = tg.runs_of_set(tg.shape_leaves(node))
+        if len(runs) > 1:
+            for c in node:
+                if isinstance(c, int):
+                    continue
+                cruns = tg.runs_of_set(tg.shape_leaves(c))
+                if len(set(i for r in cruns for i, b in enumerate(runs) if r[0] in b)) > 1:
+                    return True
+        if _nested_gaps((node,)):
+            return True
+    return False
+
+
+def head_assignment_specs(max_n, nested_only_n):
+    """every discontinuous shape with <= max_n tokens (and those with nested gaps up to
+    nested_only_n) x every choice of one head child per constituent, encoded as edge HD (the other
+    edges NK / --); distinct labels per depth so that messages are readable"""
+    import copy
+    import itertools
+    for n in range(3, max(max_n, nested_only_n) + 1):
+        for sh in tg.shapes(n):
+            if tg.shape_is_continuous(sh):
+                continue
+            if n > max_n and not _nested_gaps(sh):
+                continue
+            base = tg.spec_from_shape(sh, None, labels=L.LABELS, pos=["NN", "VVFIN", "ART"],
+                                      words=L.WORDS_PLAIN, edges=["--"])
+            cons = L.constituents(base)
+            for choice in itertools.product(*[range(len(c["c"])) for c in cons]):
+                spec = copy.deepcopy(base)
+                for c, h in zip(L.constituents(spec), choice):
+                    for i, k in enumerate(sorted(c["c"], key=L.minleaf)):
+                        k["e"] = "HD" if i == h else ("NK" if i % 2 else "--")
+                yield spec
+
+
 def _nt(spec, seq):
     return (tg.spec_str(spec), tuple(seq)) if len(L.tokens(spec)) > 1 else None
 
@@ -151,6 +214,10 @@ def generate(ctx):
             yield _clause(seq), {"spec": spec, "seq": seq}, _nt(spec, seq)
     for spec in shape_specs(rng, b["exhaustive_shapes_n"], b["decorations_per_shape"]):
         for seq in seqs2:
+            yield _clause(seq), {"spec": spec, "seq": seq}, _nt(spec, seq)
+    pipes = split_pipelines()
+    for spec in head_assignment_specs(b["head_assignment_shapes_n"], b["head_assignment_nested_only_n"]):
+        for seq in pipes:
             yield _clause(seq), {"spec": spec, "seq": seq}, _nt(spec, seq)
     for _ in range(b["random_trees"]):
         n = rng.randint(2, b["random_max_n"])
